@@ -181,6 +181,10 @@ package parse
 //@   loop 0 invariant LI(l) && sameText(l) && l.pos >= old(l.pos) && nsent(l.items) == old(nsent(l.items)) + 1 && lastsent(l.items).typ == itemQuote
 //@   loop 0 decreases len(l.input) - l.pos
 
+// The punctuation tokens are single characters wherever they stand (C10): what follows a '+', ';', '{' or '}' never
+// changes how it is lexed.
+//@ define oneChar(l, ch) = l.pos < len(l.input) && l.input[l.pos] == ch
+//@ define emittedOne(l, ty) = nsent(l.items) == old(nsent(l.items)) + 1 && lastsent(l.items).typ == ty && lastsent(l.items).pos == old(l.pos) && l.pos == old(l.pos) + 1
 //@ func lexStmt
 //@   implements type:stateFn
 //@   requires LI(l) && l.start == l.pos
@@ -191,6 +195,10 @@ package parse
 //@   modifies sent(l.items)
 //@   modifies mapof(l.interner.knownStrings)
 //@   nopanic
+//@   ensures implies(old(oneChar(l, '+')), emittedOne(l, itemPlus) && result == funcval(lexStmt))
+//@   ensures implies(old(oneChar(l, ';')), emittedOne(l, itemSemiColon) && result == funcval(lexStmt))
+//@   ensures implies(old(oneChar(l, '{')), emittedOne(l, itemLeftBrace) && result == funcval(lexStmt))
+//@   ensures implies(old(oneChar(l, '}')) && old(l.bracketDepth) >= 1, emittedOne(l, itemRightBrace) && result == funcval(lexStmt))
 //@   loop 0 invariant LI(l) && l.start == l.pos && sameText(l) && l.pos == old(l.pos) && nsent(l.items) == old(nsent(l.items))
 
 // run: the goroutine body. It cannot panic, every iteration makes progress, and it
